@@ -85,7 +85,7 @@ pub fn check(c: &Case17) -> Result<Obs, (String, String)> {
         return Err(("streaming-handler-drop-count".into(), ctx(format!("streaming handlers created minus drop_callback invocations = {} after everything was freed", crun.stream_balance))));
     }
     if !crun.probe_problems.is_empty() {
-        return Err(("invalid-utf8-argument-handling".into(), ctx(crun.probe_problems.join("; "))));
+        return Err(("c-api-error-reporting".into(), ctx(crun.probe_problems.join("; "))));
     }
     let a = normalise(&rust.log);
     let b = normalise(&crun.result.log);
@@ -211,7 +211,7 @@ fn gen_case(rng: &mut Rng, small: bool) -> Case17 {
         }
         _ => {}
     }
-    let hist = History { builder_freed_first: rng.bool(), strings_freed_late: rng.chance(1, 3), selectors_freed_before_rewriter: false, no_end: rng.chance(1, 10), invalid_utf8_probe: rng.chance(1, 4) };
+    let hist = History { builder_freed_first: rng.bool(), strings_freed_late: rng.chance(1, 3), selectors_freed_before_rewriter: false, no_end: rng.chance(1, 10), invalid_utf8_probe: rng.chance(1, 4), errors_left_pending: rng.chance(1, 4), null_streaming_probe: rng.chance(1, 6) };
     Case17 { base: Case::new(&cfg, &input, &cuts), hist }
 }
 
